@@ -8,13 +8,18 @@
       "resources" (dictionary of optional dictionaries), "namedictionary" (dictionary of ten optional name trees,
       each an Any check with the name-tree predicate), "nametree", "numbertree", "date", "rotate", "count",
       "pages", "structparents", "parent" (as a root check: Any with indirect = required) and "" (empty dictionary)
-  inside F2 only (conjectured): "rectangle" = array of 4 (Integer | Real)
+  inside F2 only (machine = specification PROVED too, `machine_eq_conforms_F2`, Props/C08F2.lean):
+      "rectangle" = array of 4 (Integer | Real)
+  COUNTS (`shipped_fragment_counts`): of the 19 registered names 11 are in F1 and 12 in F2 (F1 + "rectangle"); of the 61
+      distinct nodes of the shipped specification (sub-terms of the catalog type and of the registered types) 44 are in
+      F1 and 46 in F2.  The catalog type itself is NOT in F2 (nor are page, template, kid(s), the two root types):
   outside both: "page", "template" (contain /Parent : Any with a bare indirect requirement -- the known finding
       any-entry-skips-indirect -- and rectangles whose alternative Integer also types other entries),
       "kid" / "kids" / "root-page-tree" / "root-non-page-tree" (disjunction page | node | template of dictionary
       types: compound alternatives), hence "catalog".
 -/
 import Parsley.Props.C08
+import Parsley.Props.C08F2
 import Parsley.Gen.CatalogSpec
 namespace Parsley.C08
 open Parsley Parsley.TC Parsley.TC.Spec Parsley.TC.Frag
@@ -39,5 +44,24 @@ theorem shipped_namedictionary_correct (g : Graph) (o : Obj) :
     verdict (checkTypeFuel Fix.tree g shipped (Term.workBound Fix.tree g shipped o (.named "namedictionary")) o
       (.named "namedictionary")) = true ↔ Conforms g shipped o (.named "namedictionary") :=
   machine_eq_conforms_F1 g shipped o _ (by decide +kernel)
+
+/-- the F2 theorem instantiated on the shipped rectangle type (MediaBox, CropBox, ...): for EVERY graph and object the
+    machine's verdict is the declarative one, although the memo keeps the failed (number, Integer) pairs -/
+theorem shipped_rectangle_correct (g : Graph) (o : Obj) :
+    verdict (checkTypeFuel Fix.tree g shipped (Term.workBound Fix.tree g shipped o (.named "rectangle")) o
+      (.named "rectangle")) = true ↔ Conforms g shipped o (.named "rectangle") :=
+  machine_eq_conforms_F2 g shipped o _ (by decide +kernel)
+
+/-- the registered names of the shipped specification inside F1 / inside F2 -/
+def shippedNames : List String := (shipped.map (·.1)).eraseDups
+
+/-- how much of the shipped specification lies in the proved fragments (closed facts about the regenerated term) -/
+theorem shipped_fragment_counts :
+    shippedNames.length = 19 ∧
+    (shippedNames.filter fun n => inF1 shipped (.named n)).length = 11 ∧
+    (shippedNames.filter fun n => inF2 shipped (.named n)) =
+      ["", "count", "date", "namedictionary", "nametree", "numbertree", "pages", "parent", "rectangle", "resources",
+       "rotate", "structparents"] ∧
+    inF2 shipped Parsley.Gen.CatalogSpec.catalog = false := by decide +kernel
 
 end Parsley.C08
